@@ -32,7 +32,7 @@ def plan(tier, seed):
 
 def required(tier):
     r = {"weights-exact": 10000, "project-1d": 800, "project-nd": 50, "mask-exact": 50, "total-conserved": 50,
-            "two-stage": 30, "axis-order": 30, "scale-equivariant": 30, "project-after-edit": 20, "folded-project": 15, "upward-refused": 10, "cache-transparent": 20,
+            "two-stage": 30, "axis-order": 30, "scale-equivariant": 30, "residual-linear": 30, "project-after-edit": 20, "folded-project": 15, "upward-refused": 10, "cache-transparent": 20,
             "neutral-fixed-point": 30}
     r.update({'ambient-project': 4, 'ambient-project-mask': 4, 'ambient-weights': 100})
     return r
@@ -195,6 +195,15 @@ def run(spec, rec):
                         k3 = ~rm3
                         rec.check("mask-exact", np.array_equal(np.asarray(p3.mask), rm3), site=site, tags=dict(tags, after="in-place edit"))
                         rec.close("project-after-edit", relerr(p3.data[k3], rd3[k3], scale=np.max(np.abs(rd3))) if k3.any() else 0.0, TOL, site=site, tags=tags)
+                # ... and of a difference of two spectra with matched totals (a residual): entries of either sign, a total that
+                # cancels to round-off.  Nothing may be normalised by the total
+                other = dadi.Spectrum(rng.uniform(0.1, 9.0, size=fs.shape), mask=np.asarray(fs.mask), mask_corners=False)
+                other = other * (float(np.asarray(fs.data)[~np.asarray(fs.mask)].sum()) / float(np.asarray(other.data)[~np.asarray(other.mask)].sum()))
+                ok5, p5 = rec.noraise("project-returns", lambda: (src - (other.fold() if folded else other)).project(to), site=site, tags=dict(tags, kind="residual"))
+                ok6, p6 = rec.noraise("project-returns", lambda: (other.fold() if folded else other).project(to), site=site, tags=tags)
+                if ok5 and ok6:
+                    rec.close("residual-linear", relerr(np.asarray(p5.data)[keep], (np.asarray(p.data) - np.asarray(p6.data))[keep], scale=np.max(np.abs(rd))) if keep.any() else 0.0,
+                              1e-10, site=site, tags=tags)
                 # projection is linear: a spectrum in tiny units (theta ~ 1e-9 .. 1e-12) projects to the same multiple
                 cfac = float(10.0 ** rng.uniform(-13, -8))
                 ok4, p4 = rec.noraise("project-returns", lambda: (src * cfac).project(to), site=site, tags=dict(tags, scale="tiny"))
